@@ -805,24 +805,25 @@ class QueryObjectDescriptor(SymbolicExpression[T], ABC):
             yield from [OperationResult(sources, False, self)]
 
     def evaluate_selected_variables(
-        self, sources: Dict[int, HashedValue]
+        self, sources: Dict[int, HashedValue], index: int = 0
     ) -> Iterable[OperationResult]:
         """
-        Evaluate the selected variables by generating combinations of values from their evaluation generators.
+        Evaluate the selected variables one after the other, each under the bindings produced by the previous ones, such
+        that selected expressions over the same variable (e.g., x and x.a) are evaluated on the same value.
 
         :param sources: The current bindings.
+        :param index: The index of the next selected variable to evaluate.
         :return: An Iterable of OperationResults for each combination of values.
         """
-        var_val_gen = {
-            var: var._evaluate__(copy(sources), parent=self)
-            for var in self.selected_variables
-        }
-        for sol in generate_combinations(var_val_gen):
-            var_val = {var._id_: sol[var][var._id_] for var in self.selected_variables}
-            self._is_false_ = self._is_false_ or any(
-                sol[var].is_false for var in self.selected_variables
+        if index == len(self.selected_variables):
+            yield OperationResult(sources, self._is_false_, self)
+            return
+        var = self.selected_variables[index]
+        for value in var._evaluate__(copy(sources), parent=self):
+            self._is_false_ = self._is_false_ or value.is_false
+            yield from self.evaluate_selected_variables(
+                {**sources, **value.bindings}, index + 1
             )
-            yield OperationResult({**sources, **var_val}, self._is_false_, self)
 
     @cached_property
     def _all_variable_instances_(self) -> List[Variable]:
